@@ -381,7 +381,13 @@ def select(pid, tier, seed=0):
             continue
         if tier == "quick" and d["tier"] != "quick":
             continue
-        out.append(dict(d))
+        e = dict(d)
+        if e.get("optional"):
+            # "attempts": harnesses that are known not to reach a verdict on this machine (DESIGN §10.2/§10.6); they stay in the
+            # thorough tier so that a faster machine or solver can decide them, but are capped (VERIF_ATTEMPT_CAP seconds, default 600)
+            import os
+            e["cap_s"] = min(e["cap_s"], int(os.environ.get("VERIF_ATTEMPT_CAP", "600")))
+        out.append(e)
     return out
 
 
